@@ -307,7 +307,7 @@ def partNumbers : List (Option Int) → Option (List Int)
     | some ns => some (n :: ns)
 
 /-- second pass: `numbers.windows(2).any(|w| w[0] >= w[1])` — the numbers are not strictly ascending [`InvalidPartOrder`];
-    gaps are allowed (fa59617) -/
+    gaps are allowed (dbb8684) -/
 def outOfOrder : List Int → Bool
   | a :: b :: t => decide (a ≥ b) || outOfOrder (b :: t)
   | _ => false
@@ -647,7 +647,7 @@ def step (H : Hashes) (dirLen : Nat) (s : State) : Op → State × Resp
         let ps := s.parts.filterMap fun e => if e.1.1 = id then some (e.1.2, e.2.length) else none
         (s, .parts (sortParts ps))
   | .completeMultipartUpload who b k u parts =>
-    -- a00e4e8: a request without a part list, or with an empty one, is refused before the upload is looked at
+    -- 0fcb858: a request without a part list, or with an empty one, is refused before the upload is looked at
     match parts with
     | none => (s, .err .MalformedXML)
     | some [] => (s, .err .MalformedXML)
@@ -662,7 +662,7 @@ def step (H : Hashes) (dirLen : Nat) (s : State) : Op → State × Resp
           match objPath b k with
           | .error e => (s, .err e)
           | .ok (bd, p) =>
-            -- the validation in passes (a00e4e8): numbers present, strictly ascending, part files exist, sizes
+            -- the validation in passes (0fcb858): numbers present, strictly ascending, part files exist, sizes
             match partNumbers pl with
             | none => (s, .err .MalformedXML)
             | some ns =>
